@@ -136,6 +136,10 @@ def shapes(rng, quick):
         # lists that carry EXPLICIT keys (a sparse int key / a string key stored into a list): whole-array built-ins
         # take another path for them (seeded C06-12: sort() rewrote the shared cells)
         Shape("built-sparse", ("list", [19, 11, 4]), [(7, 2)]),
+        # existing keys were stored to BEFORE the copy (seeded C06-13: a later store to the same key through the
+        # source went in place into the cell that earlier store had allocated)
+        Shape("list3-after-store", ("list", [21, 14, 8]), [(0, 50), (2, 51)]),
+        Shape("built-str-after-store", ("list", []), [("k", 1), ("j", 2), ("k", 5)]),
         Shape("list0", ("list", [])),
         Shape("holds-empty", ("list", [("list", []), 1])),
     ]
@@ -417,6 +421,26 @@ def routes(shape):
     res.append(("elem-store-call", "function viaReturn($x) { return $x; }\n", shape.php_setup("$a") + " $w = []; $w['x'] = viaReturn($a);",
                 shape.model_setup("a") + ["SCopy \"x\" \"a\"", "SLit \"w\" (LList [])", "SElemStore \"w\" (KS \"x\") \"x\""],
                 var_side("a"), elem_side("w", "x"), False, ("copy", "orig"), None))
+    # copy, store through the copy, copy the copy: then the middle array and its copy must stay independent on that key
+    if shape.lit[0] == "list" and shape.lit[1] and isinstance(shape.lit[1][0], int) and not shape.post:
+        v0 = dict(shape.top()[1]).get(0, shape.lit[1][0])      # the value element 0 has: the store keeps it (the compound mutations compute from it)
+        res.append(("copy-store-copy", "", shape.php_setup("$a") + " $y = $a; $y[0] = %d; $z = $y;" % v0,
+                    shape.model_setup("a") + ["SCopy \"y\" \"a\"", "SMut (BVar \"y\") [KI 0] (AStore %s)" % coq_z(v0), "SCopy \"z\" \"y\""],
+                    var_side("y"), var_side("z"), False, ("copy", "orig"), None))
+    # the array comes out of an object implementing ArrayAccess ($x = $coll['k']) and is THEN copied through a
+    # variable-binding route (seeded C06-14: such arrays carry a mark and SetVariableValue adopted them without a copy).
+    # offsetSet / offsetGet / the assignments are all by-value hops: model image = a chain of SCopy
+    coll = ("class Coll6 implements ArrayAccess { private $items = []; public function offsetExists($k): bool { return isset($this->items[$k]); } "
+            "public function offsetGet($k): mixed { return $this->items[$k]; } public function offsetSet($k, $v): void { $this->items[$k] = $v; } "
+            "public function offsetUnset($k): void { unset($this->items[$k]); } }\n")
+    res.append(("arrayaccess-read-assign", coll, shape.php_setup("$a") + " $cl = new Coll6(); $cl['k'] = $a; $x = $cl['k']; $y = $x;",
+                shape.model_setup("a") + ["SCopy \"it\" \"a\"", "SCopy \"x\" \"it\"", "SCopy \"y\" \"x\""],
+                var_side("x"), var_side("y"), False, ("copy", "orig"), None))
+    res.append(("arrayaccess-read-param-local", coll, shape.php_setup("$a") + " $cl = new Coll6(); $cl['k'] = $a; $x = $cl['k'];",
+                shape.model_setup("a") + ["SCopy \"it\" \"a\"", "SCopy \"x\" \"it\"", "SCopy \"p\" \"x\"", "SCopy \"tmp\" \"p\""],
+                var_side("x"), var_side("tmp"), False, ("copy",), "param-local-x"))
+    res.append(("param-then-local", "", shape.php_setup("$a"), shape.model_setup("a") + ["SCopy \"p\" \"a\"", "SCopy \"tmp\" \"p\""],
+                var_side("a"), var_side("tmp"), False, ("copy",), "param-local"))
     # a KEYED literal whose entry is the variable (seeded C06-10: the literal stored the evaluated value as is)
     res.append(("in-keyed-literal", "", shape.php_setup("$a") + " $w = ['z' => 0, 'k' => $a];",
                 shape.model_setup("a") + ["SLit \"w\" (LAssoc [(\"z\", LInt 0)])", "SElemStore \"w\" (KS \"k\") \"a\""],
@@ -496,6 +520,8 @@ def build_case(shape, route, mut, side):
             "param-named": ("function viaParam($p) { BODY }", "viaParam(p: $a)"),
             "param-default": ("function viaParam($q = 0, $p = []) { BODY }", "viaParam(1, $a)"),
             "variadic": ("function viaParam(...$xs) { BODY }", "viaParam($a)"),
+            "param-local": ("function viaParam($p) { $tmp = $p; BODY }", "viaParam($a)"),
+            "param-local-x": ("function viaParam($p) { $tmp = $p; BODY }", "viaParam($x)"),
             "param-array": ("function viaParam(array $p) { BODY }", "viaParam($a)"),
             "param-nullable-array": ("function viaParam(?array $p) { BODY }", "viaParam($a)"),
             "param-iterable": ("function viaParam(iterable $p) { BODY }", "viaParam($a)"),
